@@ -190,6 +190,12 @@ func runC04(ctx *Ctx, c c04Case) {
 			if n.PIn != "" {
 				continue // the parameter stream is a further port; covered by the count check
 			}
+			if !c04Balanced && ntasks == want && started[n.Name] < want {
+				// F20b: upstream of an abandoned port the number of tasks that get created before the
+				// program ends depends on timing (reported above as c04.unbalanced)
+				ctx.Res.Count("unbalanced-cutoff(F20b)")
+				break
+			}
 			if ntasks != want || ntasks != started[n.Name] {
 				ctx.Res.Disagree(Violation{What: fmt.Sprintf("process %s: model builds %d tasks, oracle %d, real %d", n.Name, ntasks, want, started[n.Name]), Class: "c04.model", Witness: c})
 			}
